@@ -200,6 +200,17 @@ Example C10_compile_wellformed_example :
 Proof. exact full_example. Qed.
 Print Assumptions C10_compile_wellformed_example.
 
+(* observation O-C10-1 (not a violation of C10; confirmed on the real crate by `cao-verif-harness
+   c10-witness`: after `brljcd := 1; uqabx := 2` both names read 2): two global variable names with the
+   same 32-bit Handle::from_str hash are one variable; the program is well-formed all the same *)
+Example C10_name_collision_observation :
+  handle_of_bytes [98; 114; 108; 106; 99; 100]%N = handle_of_bytes [117; 113; 97; 98; 120]%N /\
+  exists B, compile name_collision_module default_options = COk B /\
+            length (p_ids B) = 1%nat /\ map snd (p_names B) = [[98; 114; 108; 106; 99; 100]%N] /\
+            wf_check B = true.
+Proof. exact name_collision_observation. Qed.
+Print Assumptions C10_name_collision_observation.
+
 (* ---- scoping of index operands where the compiler produces them (CompilerScope.v) ----
    The bytecode does not declare the number of locals of a function, so "a local index refers to an
    existing local of its function at that point" is not a property of the output; these theorems are about
